@@ -89,3 +89,19 @@ func verifModelReaderWriteTo(r *bytes.Reader, w io.Writer) (n int64, err error) 
 	}
 	return
 }
+
+func verifPoolTake(p *sync.Pool) (any, bool)
+func verifPoolGive(p *sync.Pool, x any)
+
+// sync.Pool: Get returns some previously Put value (or none, at the environment's choice), else New()
+func verifModelPoolGet(p *sync.Pool) any {
+	if x, ok := verifPoolTake(p); ok {
+		return x
+	}
+	if p.New != nil {
+		return p.New()
+	}
+	return nil
+}
+
+func verifModelPoolPut(p *sync.Pool, x any) { verifPoolGive(p, x) }
